@@ -186,7 +186,7 @@ func init() {
 		},
 		N: func(tier string) int {
 			if tier == "quick" {
-				return 3000
+				return 6000
 			}
 			return 100000
 		},
